@@ -325,6 +325,11 @@ impl Hist {
 	fn refresh(&mut self, i: usize, update_all: bool) {
 		let view = self.node_view(i);
 		let parent = self.active(i);
+		// one refresh in twelve meets a node whose output query fails: nothing may change
+		let outage = self.p.chance(1, 12);
+		if outage {
+			self.s.node.fail_outputs.store(true, std::sync::atomic::Ordering::Relaxed);
+		}
 		let r = guarded(|| {
 			self.s.with(i, |b, m| {
 				let pk = b.parent_key_id();
@@ -332,6 +337,16 @@ impl Hist {
 			})
 		});
 		let rc = rc_of(&r);
+		if outage {
+			self.s.node.fail_outputs.store(false, std::sync::atomic::Ordering::Relaxed);
+			self.record(
+				i,
+				json!({"k": "refresh", "parent": parent, "all": update_all, "view": view, "outage": true, "rc": rc}),
+				rc.clone(),
+				json!({}),
+			);
+			return;
+		}
 		let truth = self.chain_truth(i);
 		self.record(
 			i,
@@ -1160,12 +1175,29 @@ impl Hist {
 		let parent = self.active(i);
 		let inst = self.s.wallets[i].inst.clone();
 		let mask = self.s.wallets[i].mask.clone();
+		// one update in eight meets a partial outage: the UTXO query fails while the tip and kernel
+		// queries answer — the update must give up without touching the wallet
+		let outage = self.p.chance(1, 8);
+		if outage {
+			self.s.node.fail_outputs.store(true, std::sync::atomic::Ordering::Relaxed);
+		}
 		let r = guarded(|| owner::update_wallet_state(inst, mask.as_ref(), &None, false));
 		let rc = match &r {
 			Err(_) => vec![2],
 			Ok(Err(e)) => vec![1, err_class(e)],
 			Ok(Ok(_)) => vec![0],
 		};
+		if outage {
+			self.s.node.fail_outputs.store(false, std::sync::atomic::Ordering::Relaxed);
+			let reported_ok = matches!(&r, Ok(Ok(true)));
+			self.record(
+				i,
+				json!({"k": "update_state", "tip": tip, "parent": parent, "outage": true, "rc": rc}),
+				rc.clone(),
+				json!({"nomodel": false, "unreserved_spend": true, "reported_updated": reported_ok}),
+			);
+			return false;
+		}
 		let unreserved = self.unreserved_spend[i];
 		// the model follows it when it succeeded and the chain is shorter than the scan's look-back
 		let nomodel = rc != vec![0] || tip >= 100;
